@@ -585,3 +585,10 @@ def main(ctx):
     return ctx.finish(rule='M: grow-only index at the grain of IndexGO.append (map / map-less form, promotion, deferred rebuild), MaxLen 4 (thorough 6), all append sequences over 6 values x recache interleavings; '
                            'R: TLC -simulate behaviours driven through a real IndexGO with map / recache / label state compared after each step; '
                            'V: construct (26 flat + 9 auto-integer + 8 datetime routes; int, str, float, date, tuple, mixed-object, bool labels; 30% with a duplicate), derive (23 routes incl. set operations, static / grow-only / stale-cache sources), hierarchical flat / level_drop / level_add / roll / selection, and grow-only histories (plain, auto-integer, FrameGO columns, date, year-month) with the private state bound to SFIndex step by step')
+
+
+def replay(rec):
+    import json
+    print('the record holds the route, the labels and the observation; re-run ./check C02 with the same VERIF_SEED to regenerate the events')
+    print(json.dumps({k: rec.get(k) for k in ('property', 'leg', 'clause', 'what', 'case', 'expected', 'actual')}, indent=1, default=str)[:6000])
+    return 0
